@@ -1156,12 +1156,17 @@ Lemma over_split dn v j :
   (negb (name_eqb (i_dname j) dn) || (name_eqb (i_dname j) dn && negb (String.eqb (i_sname j) (s_name v))))%bool.
 Proof. unfold over. destruct (name_eqb (i_dname j) dn), (String.eqb (i_sname j) (s_name v)); reflexivity. Qed.
 
-Lemma upsert_step st dn v :
-  store_ok st -> shadow_free st -> coherent (enames st ++ [dn]) -> s_peer v = "" ->
+(* only the entry the upsert goes into has to be free of same-name sources *)
+Lemma upsert_step_gen st dn v :
+  store_ok st ->
+  (forall p, In p st -> lower (e_name p) = lower dn -> NoDup (map s_name (e_srcs p))) ->
+  coherent (enames st ++ [dn]) -> s_peer v = "" ->
   let st' := snd (upsert st dn v) in
   (wvalid dn v = false -> st' = st) /\
   (wvalid dn v = true ->
-     store_ok st' /\ shadow_free st' /\ incl (enames st') (enames st ++ [dn]) /\
+     store_ok st' /\
+     (forall x, In x st' -> In x st \/ (lower (e_name x) = lower dn /\ NoDup (map s_name (e_srcs x)))) /\
+     incl (enames st') (enames st ++ [dn]) /\
      Permutation (call st') (filter (fun j => negb (over dn v j)) (call st) ++ [wixn dn v])).
 Proof.
   intros Hst Hsf C Hpeer. pose proof Hst as [Hnd Hok]. unfold upsert.
@@ -1171,7 +1176,7 @@ Proof.
     assert (e_name p = dn) as En.
     { apply C; [apply in_or_app; left; apply in_map; exact Hp|apply in_or_app; right; left; reflexivity|exact El]. }
     destruct (Hok p Hp) as [Vp Sp]. apply validate_none in Vp as (Vn & Vne & Vf & Vk).
-    pose proof (upsert_src_perm (s_name v) v (e_srcs p) (Hsf p Hp)) as Hu.
+    pose proof (upsert_src_perm (s_name v) v (e_srcs p) (Hsf p Hp El)) as Hu.
     set (rest := filter (fun x => negb (String.eqb (s_name x) (s_name v))) (e_srcs p)) in *.
     set (e := Entry (e_name p) (upsert_src (s_name v) v (e_srcs p))).
     assert (validate (normalize e) = None <-> src_valid (is_wild dn) v = true) as Hval.
@@ -1197,9 +1202,10 @@ Proof.
           intros x Hx. apply src_set_prec_id. rewrite <- En. apply Sp. apply filter_In in Hx. tauto. }
         split; [apply store_ok_put; [exact Hst|apply entry_ok_normalize; exact Hv]|].
         split.
-        { intros x Hx. apply put_in in Hx as [->|Hx]; [|apply Hsf; exact Hx].
+        { intros x Hx. apply put_in in Hx as [->|Hx]; [right|left; exact Hx].
+          split; [cbn [normalize e e_name]; exact El|].
           eapply Permutation_NoDup; [symmetry; apply Permutation_map; exact Hsrcs|]. cbn [map].
-          constructor; [|apply nodup_map_filter; apply Hsf; exact Hp].
+          constructor; [|apply nodup_map_filter; apply Hsf; assumption].
           intros Hin. apply in_map_iff in Hin as (x & Ex & Hx). apply filter_In in Hx as [_ Hx].
           apply negb_true_iff, String.eqb_neq in Hx. apply Hx. exact Ex. }
         split.
@@ -1246,8 +1252,8 @@ Proof.
     + split; [intros Wf; apply Hval in Hv; congruence|]. intros _.
       split; [apply store_ok_put; [exact Hst|apply entry_ok_normalize; exact Hv]|].
       split.
-      { intros x Hx. apply put_in in Hx as [->|Hx]; [|apply Hsf; exact Hx].
-        rewrite Hne. cbn [e_srcs map]. repeat constructor. intros []. }
+      { intros x Hx. apply put_in in Hx as [->|Hx]; [right|left; exact Hx].
+        rewrite Hne. cbn [e_name e_srcs map]. split; [reflexivity|]. repeat constructor. intros []. }
       split.
       { intros n Hn. apply enames_put in Hn. rewrite Hne in Hn. exact Hn. }
       rewrite (put_call _ st Hnd). rewrite Hne. cbn [e_name].
@@ -1255,6 +1261,21 @@ Proof.
       rewrite (filter_all_in _ (call st)); [reflexivity|].
       intros j Hj. unfold over. rewrite (Hnone j Hj). reflexivity.
     + split; [reflexivity|]. intros Wt. apply Hval in Wt. congruence.
+Qed.
+
+Lemma upsert_step st dn v :
+  store_ok st -> shadow_free st -> coherent (enames st ++ [dn]) -> s_peer v = "" ->
+  let st' := snd (upsert st dn v) in
+  (wvalid dn v = false -> st' = st) /\
+  (wvalid dn v = true ->
+     store_ok st' /\ shadow_free st' /\ incl (enames st') (enames st ++ [dn]) /\
+     Permutation (call st') (filter (fun j => negb (over dn v j)) (call st) ++ [wixn dn v])).
+Proof.
+  intros Hst Hsf C Hpeer.
+  destruct (upsert_step_gen st dn v Hst (fun p Hp _ => Hsf p Hp) C Hpeer) as [Hbad Hgood].
+  split; [exact Hbad|]. intros V. destruct (Hgood V) as (A & B & D & E).
+  split; [exact A|]. split; [|split; assumption].
+  intros x Hx. destruct (B x Hx) as [Hin|[_ Hn]]; [apply Hsf; exact Hin|exact Hn].
 Qed.
 
 (* ---------------------------------------------------------------- any order of the same upserts *)
